@@ -333,8 +333,13 @@ pub fn worker_main(args: &[String]) -> i32 {
     use std::io::Write;
     let mut out = out; // not locked across runs: code under test may print
 
+    start_watchdog();
     let mut handle = |run: &IoRun, stats: &mut Stats, violations: &mut BTreeMap<String, Value>, out: &mut std::io::Stdout| {
+        // announced first: if this process dies or gets stuck inside the run, the driver knows which
+        let _ = writeln!(out, "{{\"begin\":{}}}", run.index);
+        beat(run.index);
         let (reports, h) = exec_run(&ctx, run, stats);
+        beat(u64::MAX);
         let _ = writeln!(out, "{}", run_hash_line(run.index, h));
         if let Some(v) = reports.iter().find_map(|r| r.violation.clone()) {
             let class = v.class();
@@ -381,6 +386,7 @@ pub fn worker_main(args: &[String]) -> i32 {
         }
         let jj = start + j * stride;
         let run = super::conc::gen_conc_run(seed, jj);
+        let _ = writeln!(out, "{{\"begin\":{}}}", run.index);
         let rep = super::conc::exec_conc(&ctx, &run, &mut stats);
         if rep.hung {
             let _ = writeln!(out, "{{\"hang\":{}}}", run.index);
@@ -408,6 +414,48 @@ pub fn worker_main(args: &[String]) -> i32 {
     let _ = writeln!(out, "{}", json!({"stats": stats}));
     let _ = std::fs::remove_dir_all(&ctx.scratch);
     0
+}
+
+// A call that never returns must not stall the check: a watchdog thread ends the process with
+// code 4 when one run has been executing for longer than this.
+const STUCK_SECS: u64 = 90;
+static BEAT_RUN: std::sync::atomic::AtomicU64 = std::sync::atomic::AtomicU64::new(u64::MAX);
+static BEAT_AT: std::sync::atomic::AtomicU64 = std::sync::atomic::AtomicU64::new(0);
+
+fn now_secs() -> u64 {
+    std::time::SystemTime::now().duration_since(std::time::UNIX_EPOCH).map(|d| d.as_secs()).unwrap_or(0)
+}
+
+fn beat(run: u64) {
+    use std::sync::atomic::Ordering::SeqCst;
+    BEAT_AT.store(now_secs(), SeqCst);
+    BEAT_RUN.store(run, SeqCst);
+}
+
+fn start_watchdog() {
+    use std::sync::atomic::Ordering::SeqCst;
+    let _ = std::thread::Builder::new().name("watchdog".into()).spawn(|| loop {
+        std::thread::sleep(std::time::Duration::from_secs(2));
+        let run = BEAT_RUN.load(SeqCst);
+        if run != u64::MAX && now_secs().saturating_sub(BEAT_AT.load(SeqCst)) > STUCK_SECS {
+            use std::io::Write;
+            let _ = writeln!(std::io::stdout(), "{{\"stuck\":{}}}", run);
+            unsafe { libc::_exit(4) }
+        }
+    });
+}
+
+/// What `exec_fresh` reports when the process running a run died or got stuck: the call neither
+/// returned an error value nor anything else.
+fn death_violation(run: &IoRun, code: Option<i32>, signal: Option<i32>) -> Violation {
+    let last = run.ops.len().saturating_sub(1);
+    let kind = run.ops.last().map(|o| o.kind).unwrap_or(Kind::Svg);
+    let (inv, how) = if code == Some(4) {
+        ("O1_never_returned", format!("a to_file call did not return within {} s", STUCK_SECS))
+    } else {
+        ("O1_process_died", format!("the process running to_file was killed (exit code {:?}, signal {:?}; memory is capped, so unbounded allocation ends in abort)", code, signal))
+    };
+    Violation { invariant: inv.into(), op_index: last, kind, detail: format!("{} ; run of {} operation(s)", how, run.ops.len()) }
 }
 
 /// `fqsim c19-exec <replay-or-run.json>`: executes the run(s) in this fresh process.
@@ -463,7 +511,10 @@ pub fn exec_main(args: &[String]) -> i32 {
     };
     let ctx = worker_prelude();
     let mut stats = Stats::default();
+    start_watchdog();
+    beat(run.index);
     let (reports, h) = exec_run(&ctx, &run, &mut stats);
+    beat(u64::MAX);
     let _ = std::fs::remove_dir_all(&ctx.scratch);
     let viol = reports.iter().find_map(|r| r.violation.clone());
     println!("{}", json!({"violation": viol, "hash": format!("{:016x}", h), "reports": reports}));
@@ -510,6 +561,8 @@ pub fn exec_fresh(run: &IoRun) -> Result<Option<Violation>, String> {
                 serde_json::from_value(v["violation"].clone()).map(Some).map_err(|e| e.to_string())
             }
         }
+        Some(4) => Ok(Some(death_violation(run, o.code, o.signal))),
+        None if o.signal.is_some() => Ok(Some(death_violation(run, o.code, o.signal))),
         other => Err(format!("exec process failed: code={:?} signal={:?} stderr={}", other, o.signal, o.stderr)),
     }
 }
@@ -622,13 +675,43 @@ pub fn check_main(tier: Tier) -> i32 {
     let mut found: Vec<Value> = Vec::new();
     let mut run_hash: u64 = 0;
     let mut n_hashes = 0u64;
+    let mut died_workers = 0u64;
     for (i, o) in outs.iter().enumerate() {
+        let mut worker_died = false;
         if o.code != Some(0) {
-            eprintln!(
-                "harness error: C19 worker {} ended abnormally (code={:?} signal={:?}); stderr:\n{}",
-                i, o.code, o.signal, o.stderr
-            );
-            return 2;
+            // Killed (memory cap, abort, stack overflow) or stuck (code 4) inside a run: the run
+            // announced last is re-executed in fresh processes; if it does the same there, twice,
+            // that is the crate's doing and a violation. Anything else is a harness error.
+            let begun = o.lines.iter().rev().find(|l| l.starts_with("{\"begin\"")).and_then(|l| serde_json::from_str::<Value>(l).ok()).and_then(|v| v["begin"].as_u64());
+            let suspect: Option<IoRun> = match begun {
+                Some(idx) if idx >= super::conc::CONC_BASE => None,
+                Some(idx) if idx >= SWEEP_BASE => build_sweep(tier).into_iter().find(|r| r.index == idx),
+                Some(idx) => Some(gen_run(seed, idx)),
+                None => None,
+            };
+            let abnormal = o.code == Some(4) || o.signal.is_some();
+            let mut confirmed = None;
+            if let (true, Some(run)) = (abnormal, suspect.as_ref()) {
+                if let (Ok(Some(v1)), Ok(Some(v2))) = (exec_fresh(run), exec_fresh(run)) {
+                    if v1.invariant.starts_with("O1_") && v1.class() == v2.class() && (v1.invariant == "O1_process_died" || v1.invariant == "O1_never_returned") {
+                        confirmed = Some(v1);
+                    }
+                }
+            }
+            match (confirmed, suspect) {
+                (Some(v), Some(run)) => {
+                    found.push(json!({"violation": v, "run": run, "reports": []}));
+                    died_workers += 1;
+                    worker_died = true;
+                }
+                _ => {
+                    eprintln!(
+                        "harness error: C19 worker {} ended abnormally (code={:?} signal={:?}); stderr:\n{}",
+                        i, o.code, o.signal, o.stderr
+                    );
+                    return 2;
+                }
+            }
         }
         let mut got_stats = false;
         for l in &o.lines {
@@ -651,11 +734,12 @@ pub fn check_main(tier: Tier) -> i32 {
                 }
             }
         }
-        if !got_stats {
+        if !got_stats && !worker_died {
             eprintln!("harness error: C19 worker {} produced no stats; stderr:\n{}", i, o.stderr);
             return 2;
         }
     }
+    stats.bump("note:workers_that_died_inside_a_run", died_workers);
 
     // --- violations: confirm in a fresh process, minimise, classify -----------
     let known = KnownFindings::load();
